@@ -181,9 +181,11 @@ class Scrambler(Elaboratable):
         comma_present = stream_word_matches_symbol(sink, 0, symbol=COM)
 
         # Create our inner LFSR, which should advance whenever our input streams do.
+        # A comma restarts it once the word carrying the comma is actually transferred; restarting it while
+        # that word is still waiting would scramble the rest of the word with the restarted sequence.
         m.submodules.lfsr = lfsr = ScramblerLFSR(initial_value=self._initial_value)
         m.d.comb += [
-            lfsr.clear    .eq(self.clear | comma_present),
+            lfsr.clear    .eq(self.clear | (comma_present & source.ready)),
             lfsr.advance  .eq(sink.valid & source.ready & ~self.hold)
         ]
 
